@@ -31,8 +31,9 @@ from concurrent.futures import ThreadPoolExecutor
 
 import vlib
 
-MODULES = ["Verif.C05.Theorems"]
+MODULES = ["Verif.C05.Theorems", "Verif.C05.TheoremsExtra"]
 THEOREMS = [
+    # family Ev: one content per action id, torn index writes
     "Verif.C05.inv_init",
     "Verif.C05.inv_step",
     "Verif.C05.inv_run",
@@ -46,6 +47,34 @@ THEOREMS = [
     "Verif.C05.midwrite_truncate_breaks",
     "Verif.C05.getfile_window_breaks",
     "Verif.C05.exWorld",
+    # Put terminates and repairs any directory (Repair.lean)
+    "Verif.C05.put_repairs",
+    # family EvM: several contents per action id (Multi.lean)
+    "Verif.C05.inv_stepM",
+    "Verif.C05.inv_runM",
+    "Verif.C05.get_soundM",
+    "Verif.C05.getBytes_soundM",
+    "Verif.C05.getFile_soundM",
+    "Verif.C05.lookup_soundM",
+    "Verif.C05.full_stableM",
+    "Verif.C05.getFile_read_soundM",
+    # Trim / used / mtimes (Trim.lean)
+    "Verif.C05.stepT_sys",
+    "Verif.C05.invT_run",
+    "Verif.C05.lookup_soundT",
+    "Verif.C05.removed_data_misses",
+    "Verif.C05.trim_only_old",
+    "Verif.C05.getFile_then_trim_sound",
+    # the hash re-check before the last byte (Flaky.lean)
+    "Verif.C05.flaky_source_never_full",
+    # witnesses (TheoremsExtra.lean)
+    "Verif.C05.exWorldM",
+    "Verif.C05.exRunM_facts",
+    "Verif.C05.ex_put_repairs",
+    "Verif.C05.ex_trim_removes",
+    "Verif.C05.ex_used_protects",
+    "Verif.C05.ex_flaky",
+    "Verif.C05.torn_index_mix_breaks",
 ]
 CS = 32768  # io.Copy buffer; observed in the strace (write sizes), compared with the model
 TRACE = "openat,write,pwrite64,ftruncate,unlinkat,unlink,close,newfstatat,lseek,rename,renameat,renameat2,utimensat"
@@ -587,8 +616,9 @@ def run_scenarios(ctx, child, scen):
         if sc["reachable"]:
             for (api, h, n) in look_hits(rlook):
                 if (h, n) not in stored:
-                    res["oracle"].append(dict(case, killed_before=what, api=api, returned_sha256=h, returned_len=n,
-                                              look=rlook, dir=rfiles))
+                    # `files` = the directory the lookup ran on (after the kill), so that --replay reproduces it
+                    res["oracle"].append(dict(case, files=files_json(st), killed_before=what, api=api, returned_sha256=h,
+                                              returned_len=n, look=rlook, dir=rfiles))
     return res
 
 
@@ -895,7 +925,7 @@ def histories(ctx, child, rng, count=None):
                 per_id.setdefault(o["id"], set()).add(o["data"])
         if any(len(v) > 1 for v in per_id.values()):
             res["multi"] += 1
-        ml = m.split("|")
+        ml = [("files=" + sort_listing(t[6:])) if t.startswith("files=") else t for t in m.split("|")]
         if ml != r:
             first = next((j for j in range(min(len(ml), len(r))) if ml[j] != r[j]), min(len(ml), len(r)))
             res["diffs"].append({"history": k, "first_differing_op": first,
@@ -990,14 +1020,228 @@ def concurrency(ctx, child, rng):
     return res
 
 
+# --------------------------------------------------------------------------- (d2) the GetFile window, deterministically
+def proc_state(pid):
+    try:
+        return open("/proc/%d/stat" % pid).read().rsplit(")", 1)[1].split()[0]
+    except OSError:
+        return "?"
+
+
+def getfile_window(ctx, child, rng, kill_write):
+    """The schedule of theorem getfile_window_breaks on the REAL code:
+      1. a complete entry; its data file has not been used for 6 days (the index is fresh, as after a
+         Put of the same content under a new action id, which does not touch the data file);
+      2. a real Trim is stopped (strace: SIGSTOP after its os.Stat of that file, i.e. after it has
+         decided to remove it and before os.Remove);
+      3. a reader calls GetFile: hit, it holds the returned path (as lintcmd/runner does);
+      4. the trimmer continues and removes the file;
+      5. a real Put of the same content re-creates the file and is killed at its <kill_write>-th
+         data write (kill_write=0: right after the open);
+      6. the reader opens the path and reads.
+    Returns a dict with what the reader read."""
+    size = 70000
+    base = os.path.dirname(ctx.path("win", "k%d" % kill_write, "x"))
+    d = os.path.join(base, "dir")
+    data = gen_bytes("window%d-%d" % (ctx.seed, kill_write), size)
+    datafile = os.path.join(base, "data.bin")
+    with open(datafile, "wb") as f:
+        f.write(data)
+    # the index file must not be trimmed first: keep it fresh and in any sub-directory
+    idhex = sha(("window-id%d-%d" % (ctx.seed, kill_write)).encode())
+    out = sha(data)
+    res = {"size": size, "id": idhex, "kill_at_data_write": kill_write, "steps": []}
+    rc, so, se = vlib.run([child, "op", "put", d, idhex, datafile], timeout=300)
+    if rc != 0 or not so.startswith("put ok"):
+        res["outcome"] = "setup-put-failed"
+        res["steps"].append(so[:200] + se[-200:])
+        return res
+    dpath = os.path.join(d, out[:2], out + "-d")
+    t = time.time() - 6 * 86400
+    os.utime(dpath, (t, t))
+    # dry run of the writer on a copy (data file removed) to find the ordinal of the kill point
+    d2 = os.path.join(base, "dry")
+    shutil.copytree(d, d2)
+    os.remove(os.path.join(d2, out[:2], out + "-d"))
+    log = os.path.join(base, "dry.strace")
+    strace_child(child, ["op", "put", d2, idhex, datafile], log)
+    main, scs = parse_strace(log)
+    ops, points = window_ops(scs)
+    dw = [(idx, what) for (idx, nops, what) in points if what.startswith("write:D")]
+    if len(dw) <= kill_write:
+        res["outcome"] = "no-such-kill-point"
+        res["steps"].append("writer ops: %s" % ops)
+        return res
+    kidx = dw[kill_write][0]
+    inject = (scs[kidx].name, ordinal(scs, kidx))
+    # 2. the trimmer, stopped after its stat of the data file
+    tlog = os.path.join(base, "trim.strace")
+    tp = subprocess.Popen(["strace", "-f", "-o", tlog, "-P", dpath, "-e", "trace=newfstatat,unlinkat,unlink", "-e", "signal=none",
+                           "-e", "inject=newfstatat:signal=SIGSTOP:when=1", child, "op", "trim", d, "x"],
+                          stdout=subprocess.PIPE, stderr=subprocess.PIPE, text=True)
+    tpid = None
+    for _ in range(3000):
+        time.sleep(0.05)
+        if os.path.exists(tlog):
+            m = re.search(r"^(\d+) +newfstatat\(", open(tlog, errors="replace").read(), re.M)
+            if m and proc_state(int(m.group(1))) in ("T", "t"):
+                tpid = int(m.group(1))
+                break
+        if tp.poll() is not None:
+            break
+    if tpid is None:
+        try:
+            tp.kill()
+        except OSError:
+            pass
+        tp.communicate()
+        # the trimmer never stat'ed the file (or finished without stopping): this Trim does not
+        # open the window in this way
+        res["outcome"] = "trimmer-did-not-stop"
+        res["data_file_exists"] = os.path.exists(dpath)
+        return res
+    res["steps"].append("trimmer stopped after os.Stat of the data file (old mtime), before os.Remove")
+    rd = subprocess.Popen([child, "op", "getfile-hold", d, idhex], stdin=subprocess.PIPE, stdout=subprocess.PIPE,
+                          stderr=subprocess.PIPE, text=True)
+    line = rd.stdout.readline().strip()
+    res["steps"].append("reader GetFile: " + ("hit, path held" if line.startswith("path ") else line))
+    os.kill(tpid, signal.SIGCONT)
+    try:
+        tp.communicate(timeout=300)
+    except subprocess.TimeoutExpired:
+        tp.kill()
+        tp.communicate()
+    removed = not os.path.exists(dpath)
+    res["steps"].append("trimmer continued; data file removed: %s" % removed)
+    if not line.startswith("path "):
+        rd.stdin.write("\n")
+        rd.stdin.flush()
+        rd.communicate(timeout=60)
+        res["outcome"] = "getfile-missed"
+        return res
+    if removed:
+        wlog = os.path.join(base, "writer.strace")
+        rcw, sow, sew = strace_child(child, ["op", "put", d, idhex, datafile], wlog, inject=inject)
+        res["steps"].append("writer Put of the same content killed at %s #%d (rc=%s); data file now %s bytes" % (
+            inject[0], inject[1], rcw, os.path.getsize(dpath) if os.path.exists(dpath) else None))
+        res["data_file_len_when_read"] = os.path.getsize(dpath) if os.path.exists(dpath) else None
+    rd.stdin.write("\n")
+    rd.stdin.flush()
+    so, _ = rd.communicate(timeout=120)
+    read = so.strip().splitlines()[-1] if so.strip() else "read=?"
+    res["read"] = read
+    res["expected"] = "read=hit:%s:%d" % (out, size)
+    m = re.match(r"read=hit:([0-9a-f]+):(\d+)$", read)
+    if read == res["expected"] or read == "read=openerr":
+        res["outcome"] = "sound"          # complete content, or an error the caller sees
+    elif m and int(m.group(2)) < size and m.group(1) == sha(data[:int(m.group(2))]):
+        res["outcome"] = "strict-prefix"  # the window: the caller silently reads a strict prefix
+    else:
+        res["outcome"] = "other-bytes"
+    return res
+
+
 # --------------------------------------------------------------------------- (e) end to end
 E2E_FILES = {
     "go.mod": "module example.com/c05\n\ngo 1.21\n",
-    "b/b.go": "package b\n\n// Deprecated: use G.\nfunc F() int { return 1 }\n\nfunc G() int { return 2 }\n\nfunc unusedB() {}\n",
-    "c/c.go": "package c\n\nimport \"example.com/c05/b\"\n\ntype T struct{ X int }\n\n// Deprecated: gone.\nfunc (T) Old() int { return b.G() }\n\nfunc Pure(x int) int { return x + 1 }\n",
-    "a/a.go": "package a\n\nimport (\n\t\"example.com/c05/b\"\n\t\"example.com/c05/c\"\n)\n\nfunc A() int {\n\tx := b.F()\n\tx = 3\n\tvar t c.T\n\tc.Pure(1)\n\treturn t.Old() + b.G()\n}\n\nfunc unusedA() {}\n",
-    "d/d.go": "package d\n\nimport \"example.com/c05/a\"\n\nfunc D() bool {\n\ty := a.A()\n\tif y == y {\n\t\treturn true\n\t}\n\treturn false\n}\n",
+    "b/b.go": """package b
+
+// Deprecated: use G.
+func F() int { return 1 }
+
+func G() int { return 2 }
+
+// Pure has no side effects.
+func Pure(x int) int { return x*2 + 1 }
+
+// Twice has no side effects either.
+func Twice(x int) int { return Pure(Pure(x)) }
+
+type Box struct{ V int }
+
+// Deprecated: read V directly.
+func (b Box) Get() int { return b.V }
+
+func unusedB() {}
+""",
+    "c/c.go": """package c
+
+import "example.com/c05/b"
+
+type T struct{ X int }
+
+// Deprecated: gone.
+func (T) Old() int { return b.G() }
+
+func Wrap(x int) int { return b.Pure(x) + 1 }
+
+func UsesF() int { return b.F() }
+
+func Get_value(t T) int { return t.X }
+""",
+    "a/a.go": """package a
+
+import (
+\t"example.com/c05/b"
+\t"example.com/c05/c"
+)
+
+// Deprecated: use A2.
+func A() int {
+\tx := b.F()
+\tx = 3
+\tvar t c.T
+\tb.Pure(1)
+\tc.Wrap(2)
+\treturn t.Old() + b.G() + x
 }
+
+func A2(v int) int {
+\tv = v
+\tbx := b.Box{V: v}
+\treturn bx.Get()
+}
+
+func unusedA() {}
+""",
+    "d/d.go": """package d
+
+import "example.com/c05/a"
+
+func D() bool {
+\ty := a.A()
+\tif y == y {
+\t\treturn true
+\t}
+\treturn false
+}
+
+func Loop(n int) int {
+\tfor i := 0; i < n; i++ {
+\t\treturn i
+\t}
+\treturn a.A2(n)
+}
+""",
+    "e/e.go": """package e
+
+import (
+\t"example.com/c05/b"
+\t"example.com/c05/d"
+)
+
+func E(flag bool) int {
+\tif flag == true {
+\t\tb.Twice(3)
+\t}
+\tif d.D() {
+\t\treturn b.F()
+\t}
+\treturn d.Loop(2)
+}
+""",
+}
+E2E_MIN_LINES = 14   # 16 diagnostics on the unchanged tree, 8 of them need facts of other packages (SA1019, SA4017)
 
 
 def end_to_end(ctx, rng):
@@ -1020,8 +1264,10 @@ def end_to_end(ctx, rng):
     rc0, out0, err0 = lint(cold)
     if rc0 not in (0, 1) or not out0.strip():
         raise vlib.HarnessError("cold staticcheck run failed: rc=%d %s %s" % (rc0, out0[:300], err0[-500:]))
-    rounds = 6 if ctx.quick else 60
+    rounds = 10 if ctx.quick else 60
     res = {"rounds": rounds, "cold_lines": len(out0.splitlines()), "diffs": [], "damaged_files": 0}
+    if res["cold_lines"] < E2E_MIN_LINES:
+        ctx.notes.append("end-to-end: the cold run printed only %d diagnostics (expected >= %d)" % (res["cold_lines"], E2E_MIN_LINES))
     warm = ctx.path("e2e", "warm", "x")
     warm = os.path.dirname(warm)
     rcw, outw, errw = lint(warm)
@@ -1039,6 +1285,18 @@ def end_to_end(ctx, rng):
         for p in files:
             x = lr.below(10)
             size = os.path.getsize(p)
+            if r < 3:
+                # directed rounds: every data file damaged with every index entry intact
+                # (0: cut to 0 bytes, 1: cut to half, 2: removed)
+                if p.endswith("-d") and size > 0:
+                    if r == 2:
+                        os.remove(p)
+                        dmg.append((os.path.basename(p), "rm", 0, size))
+                    else:
+                        n = 0 if r == 0 else size // 2
+                        os.truncate(p, n)
+                        dmg.append((os.path.basename(p), "trunc", n, size))
+                continue
             if x < 3:
                 n = lr.below(size + 1)
                 os.truncate(p, n)
@@ -1061,70 +1319,109 @@ def end_to_end(ctx, rng):
 
 
 # --------------------------------------------------------------------------- main
+WINDOW_KEY = "getfile-window"
+
+
 def run(ctx):
     lean_ok, lean_broke = vlib.std_lean_phase(ctx, MODULES, THEOREMS)
     child = vlib.build_harness(ctx, "c05child")
     rng = vlib.SplitMix(ctx.seed)
+    known = vlib.load_known_findings("C05")
 
-    # self test of the driver's hash against hashlib
+    # self tests of the machinery (the only sources of exit 2 besides build failures)
     probe = [b"", b"abc", gen_bytes("p", 55), gen_bytes("p", 56), gen_bytes("p", 64), gen_bytes("p", 1000)]
     got = vlib.run_model(ctx, "C05", ["sha " + hexs(b) for b in probe])
     if got != [sha(b) for b in probe]:
         raise vlib.HarnessError("model driver sha256 self-test failed")
+    strace_selftest(ctx, child)
 
     if ctx.replay:
         return replay(ctx, child)
 
     t0 = time.time()
-    scen = make_scenarios(ctx, rng.fork("scen"))
+    scen = make_scenarios(ctx, rng.fork("scen")) + flaky_scenarios(ctx, rng.fork("flaky"))
     sres = run_scenarios(ctx, child, scen)
     t1 = time.time()
     fres = faults_at_rest(ctx, child, rng.fork("rest"))
     t2 = time.time()
-    cres = concurrency(ctx, child, rng.fork("conc"))
+    hres = histories(ctx, child, rng.fork("hist"))
     t3 = time.time()
-    eres = end_to_end(ctx, rng.fork("e2e"))
+    cres = concurrency(ctx, child, rng.fork("conc"))
     t4 = time.time()
+    wres = [getfile_window(ctx, child, rng.fork("win"), kw) for kw in ([1 + ctx.seed % 2] if ctx.quick else [0, 1, 2, 3])]
+    t5 = time.time()
+    eres = end_to_end(ctx, rng.fork("e2e"))
+    t6 = time.time()
 
     ctx.coverage.update({
-        "evaluations": sres["children"] + fres["cases"] + cres["procs"] + 2 * eres["rounds"],
-        "distinct_nontrivial": len(sres["nontrivial"]) + fres["nontrivial"],
+        "evaluations": sres["children"] + fres["cases"] + hres["ops"] + cres["procs"] + len(wres) + 2 * eres["rounds"],
+        "distinct_nontrivial": len(sres["nontrivial"]) + fres["nontrivial"] + hres["count"],
         "rule": "non-trivial = strace/kill case whose initial directory already holds a file of the touched id/output, or whose "
-                "kill point lies inside the data-file write or between data and index write; fault-at-rest case other than the intact directory",
+                "kill point lies inside the data-file write or between data and index write; fault-at-rest case other than the intact "
+                "directory; every history (>= 5 operations on one directory, at least one damage or trim or second content)",
         "strace_children": sres["children"], "crash_children": sres["crash_children"],
-        "scenarios": len(scen), "scenario_kinds": sorted(set(s["name"].split("/")[0].rstrip("0123456789") for s in scen)),
+        "scenarios": len(scen), "scenario_kinds": sorted(set(s["kind"].rstrip("0123456789") for s in scen)),
         "sizes": sorted(set(s["size"] for s in scen)),
         "faults_at_rest_cases": fres["cases"], "faults_at_rest_hits": fres["hits"], "faults_at_rest_misses": fres["misses"],
+        "histories": {"count": hres["count"], "operations": hres["ops"], "by_kind": hres["kinds"],
+                      "with_several_contents_per_id": hres["multi"]},
         "concurrency": {"rounds": cres["rounds"], "processes": cres["procs"], "killed": cres["killed"], "hits_checked": cres["hits"],
-                        "misses": cres["misses"], "getfile_then_open_errors": cres["openerr"]},
+                        "misses": cres["misses"], "getfile_then_open_errors": cres["openerr"],
+                        "getfile_window_prefix_reads": len(cres["window"])},
+        "getfile_window_schedules": [{"kill_at_data_write": w["kill_at_data_write"], "outcome": w["outcome"], "read": w.get("read")} for w in wres],
         "end_to_end": {"rounds": eres["rounds"], "damaged_files": eres["damaged_files"], "cold_output_lines": eres["cold_lines"]},
         "samples": sres["samples"],
-        "phase_seconds": {"strace": round(t1 - t0, 1), "rest": round(t2 - t1, 1), "concurrency": round(t3 - t2, 1), "e2e": round(t4 - t3, 1)},
+        "phase_seconds": {"strace": round(t1 - t0, 1), "rest": round(t2 - t1, 1), "histories": round(t3 - t2, 1),
+                          "concurrency": round(t4 - t3, 1), "window": round(t5 - t4, 1), "e2e": round(t6 - t5, 1)},
     })
     ctx.assumptions += [
-        "sha256 has no second preimage for stored contents (theorem hypothesis World.nocoll); one output per action id (DetOut) in the theorems; "
-        "the harness also runs repeated actions with different outputs against the oracle 'a hit is one of the contents stored under the key'",
+        "sha256 has no second preimage for stored contents (theorem hypotheses World.nocoll / WorldM.nocoll / put_repairs.hH)",
+        "two theorem families: (Ev) every writer of an action id stores the same content, index write may be torn by a crash; "
+        "(EvM) any contents per action id, the index write (one write(2) of 175 bytes at offset 0: compared on every run) is atomic "
+        "w.r.t. process death. A torn index write over an entry of another content is outside both (theorem torn_index_mix_breaks); "
+        "the at-rest cases index-half*-over-other* sample it against the oracle only",
         "POSIX semantics of open/write/ftruncate/unlink on a local file system and atomicity of a single read are modelled, not verified; "
         "the order, flags, offsets and lengths of the real system calls are compared with the model on every run (strace)",
-        "truncation is read as a fault on a file at rest; truncating a data file under a live writer is outside the quantifier (theorem midwrite_truncate_breaks)",
-        "the window between GetFile's size check and the caller's open (trimmer removes a stale file, another writer re-creates it) is outside "
-        "lookup_sound's conclusion and covered by getFile_read_sound only under 'no fault on that file in between' (theorem getfile_window_breaks); counted, not judged",
+        "truncation is read as a fault on a file at rest and only to a shorter length; truncating a data file under a live writer is outside "
+        "(theorem midwrite_truncate_breaks)",
+        "the window between GetFile's size check and the caller's open: sound unless a trimmer is between its os.Stat and os.Remove of that "
+        "file while GetFile runs (theorems getFile_then_trim_sound / getfile_window_breaks); that schedule is replayed on the real code on "
+        "every run (finding key=getfile-window)",
+        "lookup_sound/lookup_soundM/lookup_soundT need the invariant in the initial state (directories reachable from the empty one); "
+        "put_repairs needs no invariant",
         "I/O errors other than process death (ENOSPC, EIO), power loss, non-local file systems: outside",
     ]
     if cres["openerr"]:
-        ctx.notes.append("GetFile hit followed by a failing open was observed %d times under concurrent trim (documented window, not judged)" % cres["openerr"])
+        ctx.notes.append("GetFile hit followed by a failing open was observed %d times under concurrent trim (an error the caller sees)" % cres["openerr"])
 
-    # ---- classification
-    oracle = sres["oracle"] + fres["oracle"]
+    # ---- classification: oracle failures on the real code
+    oracle = sorted(sres["oracle"], key=lambda c: c["size"]) + fres["oracle"]
     if oracle:
         ctx.violation("wrong_bytes.json", {
             "what": "a cache lookup returned bytes that were never stored under that key",
             "how_to_replay": "./check C05 --replay <this file>  (materialises `files` (hex) in a cache directory and runs harness/cmd/c05child op look <dir> <id>)",
             "first": oracle[0], "count": len(oracle), "cases": oracle[:20],
         }, text="C05: lookup returned wrong bytes: %s" % json.dumps(oracle[0])[:600])
+    if sres["no_repair"]:
+        nr = sorted(sres["no_repair"], key=lambda c: c["size"])
+        ctx.violation("put_no_repair.json", {
+            "what": "cache.Put returned success on a directory with a damaged entry, but the entry is not complete afterwards: the path "
+                    "OutputFile(out) (which lintcmd/runner opens without any check) or a lookup does not give the stored content "
+                    "(theorem put_repairs fails for the real code)",
+            "how_to_replay": "./check C05 --replay <this file>  (materialises `files`, runs harness/cmd/c05child op put <dir> <id> <data file>, "
+                             "which prints what the OutputFile path reads, then op look)",
+            "first": nr[0], "count": len(nr), "cases": nr[:20],
+        }, text="C05: Put succeeded over a damaged entry without repairing it: %s: %s" % (nr[0]["scenario"], "; ".join(nr[0]["problems"]))[:600])
+    if hres["oracle"]:
+        ctx.violation("history_wrong_bytes.json", {
+            "what": "in a history of stores, faults at rest, lookups and trims on one directory a Put did not leave a complete entry or a "
+                    "lookup returned bytes never stored under that key",
+            "how_to_replay": "./check C05 --replay <this file>  (re-runs `ops` through harness/cmd/c05child batch on an empty directory)",
+            "first": hres["oracle"][0], "count": len(hres["oracle"]), "cases": hres["oracle"][:10],
+        }, text="C05: history violates the property: %s" % json.dumps(hres["oracle"][0]["problems"][0])[:600])
     if cres["viol"]:
         ctx.violation("concurrent_wrong_bytes.json", {
-            "what": "under concurrent put/get/trim (with killed writers) a lookup returned bytes other than the stored content",
+            "what": "under concurrent put/get/trim (with killed writers) a lookup returned bytes other than a stored content",
             "how_to_replay": "harness/cmd/c05child worker <dir> <seed> <nops> <roles> <nkeys> with k processes as listed; schedule dependent",
             "first": cres["viol"][0], "count": len(cres["viol"]), "cases": cres["viol"][:20],
         }, text="C05: concurrent lookup returned wrong bytes: %s" % cres["viol"][0]["line"])
@@ -1134,15 +1431,48 @@ def run(ctx):
             "how_to_replay": "module files and damage list below; STATICCHECK_CACHE=<dir> staticcheck -checks all,-ST1000 ./...",
             "module": E2E_FILES, "first": eres["diffs"][0], "count": len(eres["diffs"]),
         }, text="C05: linter output through damaged cache differs from cold output (round %s)" % eres["diffs"][0]["round"])
+    # the GetFile window: known finding for exactly that schedule and exactly that outcome
+    win_hits = [w for w in wres if w["outcome"] == "strict-prefix"]
+    win_bad = [w for w in wres if w["outcome"] in ("other-bytes",)]
+    win_broken = [w for w in wres if w["outcome"] in ("setup-put-failed", "no-such-kill-point", "getfile-missed")]
+    if win_hits or cres["window"]:
+        desc = ("key=%s GetFile returned a path; a Trim that had stat'ed the 6-day-old data file before GetFile's mtime bump removed it "
+                "afterwards; a killed writer re-created a prefix; the caller's open+read got a strict prefix (%s; %d concurrent-phase reads)"
+                % (WINDOW_KEY, ", ".join("%s of %d bytes" % ((w.get("read") or "?").split(":")[-1], w["size"]) for w in win_hits) or "-",
+                   len(cres["window"])))
+        if WINDOW_KEY in known:
+            ctx.known_finding(desc)
+        else:
+            ctx.violation("getfile_window.json", {
+                "what": "GetFile hit, then trimmer (stat before the hit, remove after it) + re-creating writer: the caller reads a strict prefix",
+                "schedules": win_hits, "concurrent": cres["window"][:10],
+            }, text="C05: " + desc)
+    elif WINDOW_KEY in known:
+        ctx.notes.append("known finding %s was not reproduced this run: %s" % (WINDOW_KEY, [w["outcome"] for w in wres]))
+    if win_bad:
+        ctx.violation("getfile_window_other_bytes.json", {
+            "what": "in the GetFile-window schedule the caller read bytes that are neither the content nor a prefix of it",
+            "schedules": win_bad}, text="C05: GetFile window: caller read foreign bytes: %s" % win_bad[0].get("read"))
+
     corr = {"syscall_sequence": sres["seq_diffs"][:10], "directory_after_kill": sres["state_diffs"][:10],
             "lookups_after_kill": sres["look_diffs"][:10], "lookups_at_rest": fres["look_diffs"][:10],
-            "completed_put_misses": sres["complete_miss"][:10]}
+            "completed_put_misses": sres["complete_miss"][:10], "put_failed_or_crashed": sres["put_failed"][:10],
+            "kill_not_placed_where_the_plain_run_had_the_call": sres["kill_landing"][:10],
+            "histories_real_vs_model": hres["diffs"][:5], "window_schedule_not_realised": win_broken[:3]}
     broke = any(corr.values()) or not lean_ok
     if broke and not ctx.violations:
-        # violation search: the directories explored above already went through the oracle
-        # (every kill point, every truncation length); widen the concurrent search once.
+        # violation search: everything explored above already went through the oracle (every kill
+        # point, every truncation length, histories); widen: more histories, one more concurrency run
+        more = histories(ctx, child, rng.fork("search-hist"), count=150 if ctx.quick else 600)
         extra = concurrency(ctx, child, rng.fork("search"))
-        if extra["viol"]:
+        if more["oracle"]:
+            ctx.violation("history_wrong_bytes.json", {
+                "what": "found by the violation search: a history in which a Put did not leave a complete entry or a lookup returned "
+                        "bytes never stored under that key",
+                "how_to_replay": "./check C05 --replay <this file>",
+                "first": more["oracle"][0], "cases": more["oracle"][:10], "correspondence": corr, "lean": lean_broke,
+            }, text="C05: history violates the property: %s" % json.dumps(more["oracle"][0]["problems"][0])[:600])
+        elif extra["viol"]:
             ctx.violation("concurrent_wrong_bytes.json", {
                 "what": "under concurrent put/get/trim a lookup returned bytes other than the stored content (found by the violation search)",
                 "first": extra["viol"][0], "cases": extra["viol"][:20], "correspondence": corr, "lean": lean_broke,
@@ -1152,7 +1482,10 @@ def run(ctx):
                 "what": "the model no longer corresponds to the code (or a proof no longer checks); the oracle held on everything explored",
                 "correspondence_streams": {k: len(v) for k, v in corr.items()}, "details": corr, "lean": lean_broke,
                 "theorems": THEOREMS,
-            }, nofail=True, text="C05: model/code correspondence broke: %s" % ", ".join(k for k, v in corr.items() if v) )
+            }, nofail=True, text="C05: model/code correspondence broke: %s" % ", ".join(k for k, v in corr.items() if v))
+    elif broke:
+        ctx.notes.append("correspondence also broke: %s" % ", ".join(k for k, v in corr.items() if v))
+        ctx.write_replay("correspondence_detail.json", {"details": corr, "lean": lean_broke})
     return vlib.finish(ctx, "proof")
 
 
@@ -1160,34 +1493,64 @@ def replay(ctx, child):
     obj = json.load(open(ctx.replay))
     cases = obj.get("cases") or [obj.get("first")]
     bad = 0
+    n = 0
     for c in cases:
-        files = c.get("files")
-        if not files or any(str(v).startswith("sha256:") for v in files.values()):
+        if c is None:
             continue
-        d = ctx.path("replay", "d%d" % bad, "x")
-        d = os.path.dirname(d)
+        n += 1
+        if "ops" in c:      # a history
+            d = os.path.dirname(ctx.path("replay", "h%d" % n, "x"))
+            ops = ops_from_json(c["ops"])
+            real = run_history_real(child, d, ops)
+            probs = history_oracle(ops, real)
+            if probs:
+                bad += 1
+                ctx.violation("replay_history.json", {"ops": c["ops"], "problems": probs, "real_results": real},
+                              text="C05 replay: history violates the property: %s" % json.dumps(probs[0])[:400])
+            continue
+        files = c.get("files")
+        if files is None or any(str(v).startswith("sha256:") for v in files.values()):
+            continue
+        d = os.path.dirname(ctx.path("replay", "d%d" % n, "x"))
         write_state(d, {k: bytes.fromhex(v) for k, v in files.items()})
-        rc, so, se = vlib.run([child, "op", "look", d, c["id"]])
         stored = set((a, b) for a, b in c["stored"])
-        for (api, h, n) in look_hits(so.strip()):
-            if (h, n) not in stored:
+        if "problems" in c and not str(c.get("data", "sha256:")).startswith("sha256:"):   # put over a damaged entry
+            data = bytes.fromhex(c["data"])
+            f = ctx.path("replay", "data%d.bin" % n)
+            with open(f, "wb") as fh:
+                fh.write(data)
+            rc, so, se = vlib.run([child, "op", "put", d, c["id"], f])
+            want = "outfile=hit:%s:%d" % (sha(data), len(data))
+            if so.startswith("put ok") and want not in so.split():
+                bad += 1
+                ctx.violation("replay_put_no_repair.json", {"case": c, "put": so.strip()},
+                              text="C05 replay: Put succeeded without repairing the entry: %s" % so.strip()[:200])
+        rc, so, se = vlib.run([child, "op", "look", d, c["id"]])
+        for (api, h, k) in look_hits(so.strip()):
+            if (h, k) not in stored:
                 bad += 1
                 ctx.violation("replay_wrong_bytes.json", {"case": c, "look": so.strip()},
                               text="C05 replay: %s returned wrong bytes" % api)
-    ctx.coverage.update({"evaluations": len(cases), "distinct_nontrivial": len(cases), "rule": "replay"})
+    ctx.coverage.update({"evaluations": n, "distinct_nontrivial": n, "rule": "replay"})
     return vlib.finish(ctx, "proof")
 
 
 META = {
     "level": "proof",
-    "technique": "Lean 4 invariant proof over a micro-step model of the cache's file protocol (all interleavings, crash points, faults at rest); "
-                 "strace-level correspondence, kill injection at every system call, exhaustive truncation lengths, concurrent processes, damaged-cache end-to-end runs",
-    "text": "Inv (data files are prefixes of the content their name hashes; index files agree with the canonical entry off the time stamp) is preserved by "
-            "every writer step, crash (between and inside writes), truncation at rest and unlink, for any number of writers (inv_run); lookup_sound: a hit "
-            "returns exactly the stored bytes; put_then_get. The model is tied to the code by comparing the real system-call sequence of cache.Put (strace) "
-            "and the directory after a SIGKILL at every system call with the model, and the real lookups with the model lookups, on every run.",
+    "technique": "Lean 4 invariant proofs over a micro-step model of the cache's file protocol (all interleavings, crash points, faults at rest, "
+                 "several contents per action id, Trim/used with mtimes); strace-level correspondence, kill injection at every system call, "
+                 "exhaustive truncation lengths, generated histories against the model, concurrent processes, the GetFile window replayed "
+                 "deterministically, damaged-cache end-to-end runs",
+    "text": "Inv/InvM (data files are prefixes of the content their name hashes; index files agree with one complete entry) are preserved by "
+            "every writer step, crash, truncation at rest and unlink for any number of writers (inv_run, inv_runM), also with trimmers, clocks and "
+            "used() (invT_run); lookup_sound / lookup_soundM / lookup_soundT: a hit returns exactly a stored content; put_repairs: from ANY "
+            "directory a Put terminates within |data|+7 system calls and leaves a complete entry; trim_only_old, getFile_then_trim_sound "
+            "(the GetFile window is safe unless a trimmer is between stat and remove), flaky_source_never_full. The model is tied to the "
+            "code by comparing the real system-call sequence of cache.Put (strace), the directory after a SIGKILL at every system call, "
+            "the real lookups, and whole generated histories (puts, faults, lookups, ageing + real Trim) with the model on every run.",
     "note": "Trusted: Lean kernel, compiled model driver (incl. its SHA-256, self-tested), strace, harness/cmd/c05child, POSIX file semantics. "
-            "Hypotheses: no second preimage of stored contents' hashes; one output per action id. Outside: truncation under a live writer, "
-            "GetFile-then-open window against a concurrent trimmer, I/O errors, power loss.",
+            "Hypotheses: no second preimage of stored contents' hashes; (Ev family) one content per action id, (EvM family) atomic index write. "
+            "Outside: truncation under a live writer, torn index write over another content's entry, I/O errors, power loss. "
+            "Known finding getfile-window (GetFile path read after trimmer + re-creating writer).",
     "design_ref": "DESIGN.md section 5, C05",
 }
